@@ -4,19 +4,24 @@ SPEC = {
     "theorem_modules": ["GluonModel.Theorems.C10"],
     "correspondences": [
         {"dialect": "parse", "quick_n": 6000, "thorough_n": 400000, "judge": "judge-c10-parse"},
+        {"dialect": "c10pipe", "quick_n": 2400, "thorough_n": 40000, "judge": "judge-c10-pipe"},
     ],
-    "oracles": [],
+    "oracles": [
+        {"name": "c10pipeline", "quick_args": ["-rounds", "12"], "thorough_args": ["-rounds", "300"], "timeout": 900},
+    ],
     "trusted_base": [
         "Lean 4.33.0 kernel; axioms limited to propext, Classical.choice, Quot.sound (audited per theorem)",
-        "hand-written model GluonModel/Model/Parse/{Scanner,Prim,Ast,Grammar}.lean of rfcparser/{scanner,parser}.go and imap/command/*.go (every parsing function, explicit fuel), tied to the real command.Parser by the `parse` / `parsebad` correspondence dialects (differential testing on generated valid commands and on malformed streams, not proof)",
+        "hand-written model GluonModel/Model/Parse/{Scanner,Prim,Ast,Grammar}.lean of rfcparser/{scanner,parser}.go and imap/command/*.go (every parsing function, explicit fuel), tied to the real command.Parser by the `parse` / `parsebad` / `c10pipe` correspondence dialects (differential testing on generated valid commands, pipelined streams of them and malformed streams, not proof)",
         "the printer GluonModel/Model/Parse/Print.lean is the definition of 'the command as written' the theorems speak about (read it: it is the RFC 3501 grammar in the printing direction)",
         "Go side: bufio.Reader semantics (chunking), time.Date (dates are compared as Unix seconds + zone offset)",
+        "values vs memory: a model command is a value, a Go command.Command is handed by reference to the session goroutine while the same parser reads on. Tied by (a) fact Generated/Facts/ParseAlias.lean regenerated from rfcparser/parser.go + imap/command (theorem literal_result_fresh: every slice ParseLiteral returns is created in that call; the []byte payload fields and what is assigned to them are listed), (b) the `c10pipe` dialect, whose implementation runner keeps every returned command and renders all of them only after the last Parse of the stream, (c) the wire oracle `c10pipeline` (pipelined APPEND/SEARCH/STATUS/LIST/SELECT/LOGIN/ID with literals on one connection, mailbox read back byte for byte)",
     ],
     "assumptions": [
-        "the model consumes a byte list; how the bytes are split across network reads is covered by the correspondence only (random chunk sizes through bufio.Reader + InputCollector, constructed as internal/session does)",
+        "the model consumes a byte list; how the bytes are split across network reads is covered by the correspondence only (random chunk sizes through bufio.Reader + InputCollector, constructed as internal/session does; `c10pipe` also hands out everything at once, chunks up to 9000 bytes, and 64-byte aligned chunks)",
+        "goroutine timing at the wire (whether the reader overwrites before the handler reads) is explored, not enumerated: the `c10pipeline` oracle sends each pipeline in one write and in the RFC-compliant wait-for-continuation way",
         "token offsets and error message texts are not modelled (they only feed error messages)",
         "keyword comparison: strings.ToLower / EqualFold on the words concerned add no match beyond ASCII case folding (argued in Grammar.lean; covered by 8-bit bytes in the generators)",
     ],
-    "explanation": "Lean round-trip theorem cmd_roundtrip: parse(print c cmd ++ tail) = cmd with exactly the line consumed, for all 28 commands of the dispatch table + DONE, all well-formed argument values, all encoding/case choices (plus the component theorems string/number/seqset/flaglist/date/datetime/searchkey (structural induction, any depth)/fetchattr/section/partial_roundtrip); the model is tied to the real parser by differential testing with random chunking; a judge compares the real parser's answer with the generated abstract command. Coverage note: UNDER THEOREM: every command (CAPABILITY IDLE NOOP LOGOUT CHECK CLOSE EXPUNGE UNSELECT STARTTLS LOGIN SELECT EXAMINE CREATE DELETE SUBSCRIBE UNSUBSCRIBE RENAME LIST LSUB STATUS STORE COPY MOVE UID{COPY,MOVE,FETCH,SEARCH,STORE,EXPUNGE} FETCH APPEND SEARCH ID DONE). EXCLUDED from the theorem by a named condition, each with a witness theorem and flagged by the judge on the real code (known findings): '[' inside atoms/tags (lbracket_atom_witness), list-mailbox written as a literal (list_literal_witness). The empty literal {0} (#17, repaired by e5f2a7d) is inside string_roundtrip. ONLY UNDER CORRESPONDENCE: chunking of the byte stream across network reads, leading zeros of numbers, 8-bit bytes inside quoted strings, repeated ID keys (map semantics), more than one command per connection.",
-    "coverage_note": "all commands under cmd_roundtrip; excluded inputs: '[' in atoms, literal list-mailbox (witness theorems + judge = known findings); chunking / leading zeros / duplicate ID keys only under correspondence",
+    "explanation": "Lean round-trip theorem cmd_roundtrip: parse(print c cmd ++ tail) = cmd with exactly the line consumed, for all 28 commands of the dispatch table + DONE, all well-formed argument values, all encoding/case choices (plus the component theorems string/number/seqset/flaglist/date/datetime/searchkey (structural induction, any depth)/fetchattr/section/partial_roundtrip); the model is tied to the real parser by differential testing with random chunking; a judge compares the real parser's answer with the generated abstract command. Pipelines: pipeline_command_independent (from ANY parser state whose unread input starts with the printed line, Parse returns that command and consumes that line) and pipeline_roundtrip (the reader loop on one parser returns exactly the written commands in order, any number, any encodings); literal_result_fresh (fact regenerated from source); judge-c10-pipe on the real parser: each command of a pipelined stream is the written one and still is after the following commands were parsed; oracle c10pipeline the same over TCP. Coverage note: UNDER THEOREM: every command (CAPABILITY IDLE NOOP LOGOUT CHECK CLOSE EXPUNGE UNSELECT STARTTLS LOGIN SELECT EXAMINE CREATE DELETE SUBSCRIBE UNSUBSCRIBE RENAME LIST LSUB STATUS STORE COPY MOVE UID{COPY,MOVE,FETCH,SEARCH,STORE,EXPUNGE} FETCH APPEND SEARCH ID DONE). EXCLUDED from the theorem by a named condition, each with a witness theorem and flagged by the judge on the real code (known findings): '[' inside atoms/tags (lbracket_atom_witness), list-mailbox written as a literal (list_literal_witness). The empty literal {0} (#17, repaired by e5f2a7d) is inside string_roundtrip. ONLY UNDER CORRESPONDENCE: chunking of the byte stream across network reads, leading zeros of numbers, 8-bit bytes inside quoted strings, repeated ID keys (map semantics), that a returned command keeps its value while the parser reads on (c10pipe late rendering + c10pipeline oracle + fact literal_result_fresh).",
+    "coverage_note": "all commands under cmd_roundtrip, pipelines of them under pipeline_roundtrip; excluded inputs: '[' in atoms, literal list-mailbox (witness theorems + judge = known findings); chunking / leading zeros / duplicate ID keys only under correspondence",
 }
